@@ -11,6 +11,7 @@ package main
 // states, SPENT/PENDING truth).
 
 import (
+	"github.com/elnosh/gonuts/cashu"
 	"fmt"
 	"sort"
 	"strings"
@@ -95,6 +96,7 @@ type built struct {
 	watch    []*HProof // secrets the threads compete for
 	notify   *HMintQ   // deliver the invoice notification of this quote as one more thread
 	mintq    *HMintQ   // the mint quote the threads compete for (follow-up: one more mint request)
+	restore  []ReqOut  // follow-up: restore these outputs (what is stored = what the winners were given, nothing of a loser)
 }
 
 // a scenario builds its threads on a prepared environment
@@ -112,6 +114,18 @@ func schedScenarios() []scenario {
 			p := e.fund(8)
 			o1, o2 := e.g.outputs(8, e.env.ActiveKeysetId()), e.g.outputs(8, e.env.ActiveKeysetId())
 			return built{threads: []thr{{func() { e.s.OpSwap(e.reqs(p), o1) }, p}, {func() { e.s.OpSwap(e.reqs(p), o2) }, p}}, watch: p, notify: nil}
+		}},
+		// two swaps of DIFFERENT inputs whose output lists share one blinded message, in second position of the later one:
+		// the storage layer must store a request's signatures all or none (the second insert of the loser fails on the key)
+		{"swap||swap-shared-output", [][]string{nil}, func(e *schedEnv) built {
+			p1, p2 := e.fund(12), e.fund(12)
+			o1, o2 := e.g.outputs(12, e.env.ActiveKeysetId()), e.g.outputs(12, e.env.ActiveKeysetId())
+			if len(o1) == 2 && len(o2) == 2 && o1[1].BM.Amount == o2[1].BM.Amount {
+				o2[1] = o1[1]
+				o2[1].O = nil
+			}
+			return built{threads: []thr{{func() { e.s.OpSwap(e.reqs(p1), o1) }, p1}, {func() { e.s.OpSwap(e.reqs(p2), o2) }, p2}},
+				watch: append(append([]*HProof{}, p1...), p2...), notify: nil, restore: append(append([]ReqOut{}, o1...), o2...)}
 		}},
 		{"swap||melt", paySc, func(e *schedEnv) built {
 			p := e.fund(8)
@@ -294,6 +308,13 @@ func (e *schedEnv) runSchedule(sc scenario, script []string, choose func(i int, 
 	}
 	if b.mintq != nil {
 		s.OpMint(b.mintq, e.g.outputs(b.mintq.Amount, e.env.ActiveKeysetId()), 0)
+	}
+	if len(b.restore) > 0 {
+		var bms []cashu.BlindedMessage
+		for _, o := range b.restore {
+			bms = append(bms, o.BM)
+		}
+		s.OpRestore(bms)
 	}
 	c.Capture = nil
 	// ---- classify what the monitors saw by root cause
